@@ -983,6 +983,11 @@ func (e *Engine) Verify(fn *ssa.Function, c *Contract) *FuncResult {
 		}
 		for name := range c.AtAsserts {
 			ok := false
+			if p := fn.Parent(); p != nil && strings.HasPrefix(name, p.Name()+".") {
+				// a sibling closure (or this one), called through the variable it is bound to: not a
+				// static callee; the check after the run (an obligation was produced) covers it
+				ok = true
+			}
 			for _, b := range fn.Blocks {
 				for _, ins := range b.Instrs {
 					if ci, isCall := ins.(ssa.CallInstruction); isCall {
